@@ -1,7 +1,7 @@
 #!/bin/bash
 # keep_seed.sh <PROP> <k> "<caught by>" "<what was run>" : copies a confirmed seeded change into /verif/seeded/
 P=$1; K=$2; CAUGHT=$3; RAN=$4
-S=/tmp/mut/out/$P/$K; D=/verif/seeded/$P-$K
+S=${SEED_SRC:-/tmp/mut/out}/$P/$K; D=/verif/seeded/$P-${SEED_AS:-$K}
 mkdir -p $D
 cp $S/patch.rebased.diff $D/patch.diff 2>/dev/null || cp $S/patch.diff $D/patch.diff
 cp $S/*_test.go $D/ 2>/dev/null; cp $S/*.go $D/ 2>/dev/null
